@@ -17,7 +17,7 @@ EXPLANATION = (
     "Path-exhaustive obligations over the RCU flavours' reclamation code: push_buffer makes one push attempt and frees the pointer exactly "
     "when it did not fit (after synchronize); clear_buffer and the disposer thread's dispose_buffer free-or-keep each popped element exactly "
     "once under the epoch guard; Destruct()/destructors drain the buffer with the maximal epoch before the singleton is deleted; "
-    "general_instant frees each element once after synchronize; retire_ptr/batch_retire hand each element over exactly once tagged with "
+    "general_instant frees each element once after synchronize; retire_ptr/batch_retire hand each element over exactly once (batch_retire leaves its element loop only through the loop's own range / chain test) tagged with "
     "the current epoch. The exactly-once delivery of the MPMC buffer itself is property C07, not decided here.")
 ASSUMPTIONS = ["clang CFG of the instantiated RCU classes (-DNDEBUG)", "necessary conditions only"]
 R = "Otherwise a retired object is disposed twice or never (C05)."
